@@ -9,13 +9,20 @@
   (layer S, `check`).  For each mode:
 
     completeness   the oracle accepts every message the reference sender can
-                   emit and decodes exactly what went in;
+                   emit with `Opts = {}` on a plan obeying the chunk rules
+                   `PlanOK` (specification + the receivers' empty-chunk
+                   convention, see Model/SpecDecode.lean header; the Go sender's
+                   plans obey them) and decodes exactly what went in;
     soundness      whatever the oracle accepts IS the reference encoding of the
                    decoded fields (no non-minimal MessagePack, no str-for-bin,
                    no nil-for-empty, no extra element, no trailing byte), every
                    recomputed nonce / key box / MAC / signature input is the
-                   specified one — hence the accepted bytes are the reference
-                   sender's output for the decoded inputs.
+                   specified one — hence, for encryption (under `OpenCanonical`),
+                   the accepted bytes are the reference sender's output for the
+                   decoded inputs.  For signatures (and a named signcryption
+                   sender) that last step needs `SigCanonical`, an IDEALISATION
+                   that real Ed25519 does not satisfy for a key holder: with the
+                   real primitives only the field-level conjuncts apply there.
 
   What the run-time check then establishes (`C08_oracle_sound`,
   `C08_oracle_sound_model`): the implementation's bytes, once accepted, are
@@ -207,25 +214,83 @@ theorem C08_oracle_sound (P : Prims) (hL : P.Lawful) (hC : OpenCanonical P) (b :
               o.payloadKey (planOf o.chunks m.pkts) :=
   oracle_sound_encryption P hL hC b secrets s h
 
-/-- the run-time check against the code model: if the oracle accepts bytes `b`
-    and decodes the payload key, sender, recipients and chunk plan that the
-    sender model `Encrypt.sealWith` was run with, then `b` is byte for byte what
-    the model emits (which the correspondence shows `Seal` emits) -/
+/-- the run-time check against the code model (V1 AND V2, named or anonymous
+    sender): if the oracle accepts bytes `b` and decodes the payload key, sender,
+    recipients and CHUNKS that the sender model `Encrypt.sealWith` was run with,
+    then `b` is byte for byte what the model emits (which the correspondence
+    shows `Seal` emits).  Only the chunks are compared: a layout-1 packet has no
+    final flag on the wire (`EncPkt.ofVal 1` decodes `final := false`, so a
+    comparison of the flagged plans would be unsatisfiable for V1 — the earlier
+    form of this theorem was vacuous there); under layout 2 the chunk rules the
+    oracle enforced determine the flags (`planOK2_flags`).  Anonymous sender:
+    `sender = none`, the decoded sender key is the ephemeral one. -/
 theorem C08_oracle_sound_model (P : Prims) (hL : P.Lawful) (hC : OpenCanonical P) (b : Bytes) (secrets : List Bytes)
     (s : String) (h : encryption P b secrets = .ok s)
-    (bs : Nat) (v : Version) (hv : v = v1 ∨ v = v2) (senderSec ephSec pk pt out : Bytes) (rs : List Encrypt.Recipient)
-    (hseal : Encrypt.sealWith P bs v (some senderSec) rs ephSec pk pt = .ok out) :
+    (bs : Nat) (v : Version) (hv : v = v1 ∨ v = v2) (sender : Option Bytes) (ephSec pk pt out : Bytes)
+    (rs : List Encrypt.Recipient)
+    (hseal : Encrypt.sealWith P bs v sender rs ephSec pk pt = .ok out) :
     ∃ (m : EncMsg) (o : EncOpened), EncMsg.parse b = .ok m ∧ m.check P secrets = .ok o ∧
-      (m.major = layoutOf v → m.eph = P.boxPub ephSec → o.senderPub = P.boxPub senderSec →
+      (m.major = layoutOf v → m.eph = P.boxPub ephSec → o.senderPub = P.boxPub (sender.getD ephSec) →
         o.payloadKey = pk → rsOf P (recipsOf secrets m.recvs) = rs →
-        planOf o.chunks m.pkts = Encrypt.chunkPlan v bs pt → b = out) :=
-  oracle_sound_model P hL hC b secrets s h bs v hv senderSec ephSec pk pt out rs hseal
+        o.chunks = (Encrypt.chunkPlan v bs pt).map (·.1) → b = out) :=
+  oracle_sound_model P hL hC b secrets s h bs v hv sender ephSec pk pt out rs hseal
+
+/-- what makes the comparison by chunks sufficient: the layout-1 reference
+    encoding does not depend on the flags; under the V2 chunk rules the flags
+    are determined by the chunks -/
+theorem C08_plan_flags_determined :
+    (∀ (P : Prims) (o : Spec.Opts) (sender : Option Bytes) (rs : List Encrypt.Recipient) (eph pk : Bytes)
+        (pl pl' : List (Bytes × Bool)), pl.map (·.1) = pl'.map (·.1) →
+        Spec.encodePlan P 1 o sender rs eph pk pl = Spec.encodePlan P 1 o sender rs eph pk pl') ∧
+    (∀ (pl : List (Bytes × Bool)) (k : Nat), PlanOK 2 k pl → ∀ (pre : List Bytes) (c : Bytes),
+        pl.map (·.1) = pre ++ [c] → pl = pre.map (·, false) ++ [(c, true)]) :=
+  ⟨encodePlan_layout1_flags, planOK2_flags⟩
+
+set_option maxRecDepth 100000 in
+/-- non-vacuity of `C08_oracle_sound_model`, **V1** (kernel-evaluated, toy
+    primitives): the model's own V1 output — named sender, one visible and one
+    hidden recipient, block size 4, five plaintext bytes, i.e. packets
+    `[1,2,3,4]`, `[5]`, `[]` — is accepted by the oracle and EVERY antecedent of
+    the theorem holds of the decoded values -/
+example : ∃ (out : Bytes) (s : String) (m : EncMsg) (o : EncOpened),
+    Encrypt.sealWith Toy.prims 4 v1 (some [7]) (rsOf Toy.prims [([1], false), ([2], true)]) [5]
+      (List.replicate 32 3) [1, 2, 3, 4, 5] = .ok out ∧
+    encryption Toy.prims out [[1], [2]] = .ok s ∧ EncMsg.parse out = .ok m ∧ m.check Toy.prims [[1], [2]] = .ok o ∧
+    m.major = layoutOf v1 ∧ m.eph = Toy.prims.boxPub [5] ∧ o.senderPub = Toy.prims.boxPub ((some [7] : Option Bytes).getD [5]) ∧
+    o.payloadKey = List.replicate 32 3 ∧
+    rsOf Toy.prims (recipsOf [[1], [2]] m.recvs) = rsOf Toy.prims [([1], false), ([2], true)] ∧
+    o.chunks = (Encrypt.chunkPlan v1 4 [1, 2, 3, 4, 5]).map (·.1) :=
+  modelHyps_spec Toy.prims 4 v1 (some [7]) _ [5] _ [1, 2, 3, 4, 5] [[1], [2]] (by decide +kernel)
+
+set_option maxRecDepth 100000 in
+/-- the same for **V2**, and for an ANONYMOUS V1 sender -/
+example :
+    modelHyps Toy.prims 4 v2 (some [7]) (rsOf Toy.prims [([1], false), ([2], true)]) [5]
+      (List.replicate 32 3) [1, 2, 3, 4, 5] [[1], [2]] = true ∧
+    modelHyps Toy.prims 4 v1 none (rsOf Toy.prims [([1], true)]) [5]
+      (List.replicate 32 3) [1, 2, 3, 4, 5] [[1]] = true ∧
+    modelHyps Toy.prims 4 v2 none (rsOf Toy.prims [([1], true)]) [5] (List.replicate 32 3) [] [[1]] = true := by
+  decide +kernel
+
+/-- `modelHyps … = true` IS the conjunction of the antecedents (so the examples
+    above instantiate them all) -/
+theorem C08_oracle_sound_model_hyps (P : Prims) (bs : Nat) (v : Version) (sender : Option Bytes)
+    (rs : List Encrypt.Recipient) (ephSec pk pt : Bytes) (secrets : List Bytes)
+    (h : modelHyps P bs v sender rs ephSec pk pt secrets = true) :
+    ∃ (out : Bytes) (s : String) (m : EncMsg) (o : EncOpened),
+      Encrypt.sealWith P bs v sender rs ephSec pk pt = .ok out ∧ encryption P out secrets = .ok s ∧
+      EncMsg.parse out = .ok m ∧ m.check P secrets = .ok o ∧
+      m.major = layoutOf v ∧ m.eph = P.boxPub ephSec ∧ o.senderPub = P.boxPub (sender.getD ephSec) ∧
+      o.payloadKey = pk ∧ rsOf P (recipsOf secrets m.recvs) = rs ∧
+      o.chunks = (Encrypt.chunkPlan v bs pt).map (·.1) :=
+  modelHyps_spec P bs v sender rs ephSec pk pt secrets h
 
 /-- **attached signatures**: an accepted byte string is the reference encoding
     of the decoded fields, the nonce has the length asked for, every packet's
     signature verifies under the header's key on exactly the specified input,
-    the chunk rules hold; for a scheme with unique signatures it is the
-    reference sender's output -/
+    the chunk rules hold (all unconditional); under the idealisation
+    `SigCanonical` (unique signatures — NOT true of real Ed25519 for a key
+    holder) it is the reference sender's output -/
 theorem C08_oracle_sound_attached (P : Prims) (nl : Nat) (b : Bytes) (s : String)
     (h : SpecDecode.attached P nl b = .ok s) :
     ∃ (m : AttMsg) (layout : Nat), (layout = 1 ∨ layout = 2) ∧ m.major = layout ∧ AttMsg.parse b = .ok m ∧
